@@ -168,6 +168,97 @@ func GenOp(ch *core.Chooser, hosts []string, kinds []int) Op {
 	return o
 }
 
+// GenOpFor draws a query like GenOp, but half of the time DERIVES it from a
+// random line of the lists: a cosmetic lookup for the host of an element-hiding
+// rule or exception, a sub-request from a page named in a $domain modifier, a
+// DNS query for a name in a hosts line, a request for the host of a ||host^
+// rule.  Requests that concern the rules at hand are what makes buckets,
+// exceptions and modifiers actually take part in answers.
+func GenOpFor(ch *core.Chooser, hosts []string, kinds []int, lines []string) Op {
+	if len(lines) == 0 || ch.Intn("q.derive", 2) == 0 {
+		return GenOp(ch, hosts, kinds)
+	}
+	l := strings.TrimSpace(lines[ch.Intn("q.line", len(lines))])
+	allowed := func(k int) bool {
+		for _, x := range kinds {
+			if x == k {
+				return true
+			}
+		}
+		return false
+	}
+	firstHost := func(list string) string {
+		for _, d := range strings.FieldsFunc(list, func(r rune) bool { return r == ',' || r == '|' }) {
+			if d = strings.TrimPrefix(d, "~"); d != "" {
+				return d
+			}
+		}
+		return hosts[0]
+	}
+	o := GenOp(ch, hosts, kinds)
+	switch {
+	case strings.HasPrefix(l, "!") || l == "" || l == "#" || strings.HasPrefix(l, "# "):
+		return o
+	case strings.Contains(l, "#@#") || strings.Contains(l, "##"):
+		if !allowed(OpCosmetic) {
+			return o
+		}
+		i := strings.Index(l, "#")
+		h := hosts[ch.Intn("q.host", len(hosts))]
+		if i > 0 {
+			h = firstHost(l[:i])
+		}
+		return Op{Kind: OpCosmetic, Host: h, CosOpt: []rules.CosmeticOption{rules.CosmeticOptionAll, rules.CosmeticOptionAll, rules.CosmeticOptionCSS}[ch.Intn("q.cosopt", 3)]}
+	case strings.Contains(l, "domain="):
+		if !allowed(OpWeb) {
+			return o
+		}
+		v := l[strings.Index(l, "domain=")+len("domain="):]
+		if j := strings.IndexByte(v, ','); j >= 0 {
+			v = v[:j]
+		}
+		src := firstHost(v)
+		k := OpWeb
+		if allowed(OpMatchAll) && ch.Intn("q.derivekind", 3) == 2 {
+			k = OpMatchAll
+		}
+		return Op{Kind: k, URL: "https://" + queryHost(ch, hosts) + webPaths[ch.Intn("q.path", len(webPaths))],
+			Src: "https://" + src + SrcPaths[ch.Intn("q.srcpath", len(SrcPaths))], Type: reqTypes[ch.Intn("q.type", len(reqTypes))]}
+	case len(l) > 0 && (l[0] >= '0' && l[0] <= '9' || l[0] == ':') && strings.ContainsAny(l, " \t"):
+		f := strings.Fields(l)
+		if len(f) >= 2 && allowed(OpDNS) {
+			o = Op{Kind: OpDNS}
+			genDNSFields(ch, hosts, &o)
+			o.Host = f[1+ch.Intn("q.alias", len(f)-1)]
+			if strings.HasPrefix(o.Host, "#") {
+				o.Host = f[1]
+			}
+		}
+		return o
+	case strings.HasPrefix(l, "||") || strings.HasPrefix(l, "@@||"):
+		h := strings.TrimPrefix(strings.TrimPrefix(l, "@@"), "||")
+		if j := strings.IndexAny(h, "^/$*"); j >= 0 {
+			h = h[:j]
+		}
+		if h == "" {
+			return o
+		}
+		if ch.Intn("q.sub", 4) == 3 {
+			h = "www." + h
+		}
+		switch {
+		case o.Kind == OpDNS || o.HostnameReq:
+			o.Host = h
+		case o.Kind == OpCosmetic:
+			o.Host = h
+		default:
+			o.URL = "https://" + h + webPaths[ch.Intn("q.path", len(webPaths))]
+		}
+		return o
+	}
+	return o
+}
+
 func genDNSFields(ch *core.Chooser, hosts []string, o *Op) {
 	o.Host = queryHost(ch, hosts)
 	o.DNSType = DNSTypes[ch.Intn("q.dnstype", len(DNSTypes))]
